@@ -23,6 +23,7 @@ RULE = ("One evaluation = one seeded execution of two real clients (real "
         "hit a message that the target had not processed yet. Distinct: "
         "event-log digests among non-trivial runs.")
 RULE += (' A fifth configuration runs long exchanges (up to 45 messages a side) with late verbatim replays of version/pake/phase 0. Sweep operations include non-ASCII look-alike labels, third-side re-labelling and pake-withholding.')
+RULE += (' In the long configuration the server may also sit on one numbered message while 9..20 later ones pass, and deliver it afterwards.')
 LEVEL_TEXT = ("Fault enumeration: every tamper operation of the sweep table "
               "(bit flips, truncation, extension, drop, duplicate, side and "
               "phase re-labelling incl. non-ASCII look-alike labels, cross-"
@@ -526,8 +527,60 @@ def run_one(seed, tape, opts):
         sim.note("fault.mbox_tamper." + op)
         sim.ev("tamper", c.name, op)
 
+    # long exchanges: the server may sit on one of the peer's numbered
+    # messages while 9..20 later ones go through, and hand it over afterwards
+    # (an unordered set of messages is all the server promises)
+    wh = {"left": 1 if opts.get("long") and tape.choose(3, "wh?") else 0,
+          "held": None, "since": 0, "need": 9 + tape.choose(12, "wh_need")}
+
+    def wh_release():
+        if wh["held"] is None:
+            return
+        end, raw = wh["held"]
+        wh["held"] = None
+        if end.alive and end.link.up:
+            end.inflight.append(raw)
+            sim.ev("tamper", end.link.owner.name, "withheld_released")
+
+    def wh_step():
+        if wh["held"] is not None:
+            end = wh["held"][0]
+            if wh["since"] >= wh["need"] or not end.alive or not end.link.up:
+                wh_release()
+            return
+        if wh["left"] <= 0:
+            return
+        for link in sim.net.links:
+            if link.mode != "message" or not link.up or link.owner is None:
+                continue
+            end = link.ends[0]
+            c = link.owner
+            if not end.alive or c.close_called:
+                continue
+            for i, m in enumerate(end.inflight):
+                if _msg_type(m) != "message":
+                    continue
+                try:
+                    d = json.loads(m[1:].decode())
+                except Exception:
+                    continue
+                if d.get("side") != c.side and \
+                        str(d.get("phase", "")).isdigit() and \
+                        tape.chance(12, "wh_now"):
+                    wh["held"] = (end, end.inflight.pop(i))
+                    wh["left"] -= 1
+                    wh["since"] = 0
+                    wh["owner"] = c.name
+                    fired.append((sim.steps, c.name, "withhold", d["phase"],
+                                  None))
+                    sim.note("fault.mbox_tamper.withhold")
+                    sim.ev("tamper", c.name, "withhold", d["phase"])
+                    return
+
     def on_server_msg(c, msg):
         if msg.get("type") == "message":
+            if wh["held"] is not None and wh.get("owner") == c.name:
+                wh["since"] += 1
             stash[c.name].append(msg)
             if len(stash[c.name]) > 40:
                 del stash[c.name][0]
@@ -557,6 +610,7 @@ def run_one(seed, tape, opts):
 
     def oracle():
         prefix.step()
+        wh_step()
         if late_replays[0] > 0:
             for link in sim.net.links:
                 if link.mode == "message" and link.up and \
@@ -575,6 +629,8 @@ def run_one(seed, tape, opts):
     w.heal()
     tamper_budget[0] = 0
     late_replays[0] = 0
+    wh["left"] = 0
+    wh_release()
     r = sim.run(6000, until=done, max_time=900)
     w.finish()
     v = (viol[0] if viol else None) or prefix.violation
